@@ -1446,7 +1446,14 @@ def _build_result(pb, penalty, success, status, n_iter, options):
     Build the result of the optimization process.
     """
     # Build the result.
-    x, fun, maxcv = pb.best_eval(penalty)
+    try:
+        x, fun, maxcv = pb.best_eval(penalty)
+    except CallbackSuccess:
+        # No evaluation had been made yet, and the callback requested to stop
+        # at the evaluation made to build the result.
+        status = ExitStatus.CALLBACK_SUCCESS
+        success = True
+        x, fun, maxcv = pb.best_eval(penalty)
     success = success and np.isfinite(fun) and np.isfinite(maxcv)
     if status not in [ExitStatus.TARGET_SUCCESS, ExitStatus.FEASIBLE_SUCCESS]:
         success = success and maxcv <= options[Options.FEASIBILITY_TOL]
